@@ -74,7 +74,7 @@ def base_of(row):
             "status": end["status"], "step_status": end["step_status"]}
 
 
-def judge_row(rid, prog_tla, cfg_tla, row, base=None, skips=None):
+def judge_row(rid, prog_tla, cfg_tla, row, base=None, skips=None, hookcl=False):
     """driver row -> row of Run_Trace (uniform records, markers as records)"""
     end = row["end"]
 
@@ -86,7 +86,7 @@ def judge_row(rid, prog_tla, cfg_tla, row, base=None, skips=None):
           "errmarks": [[recs(x) for x in per] for per in end["errmarks"]],
           "captured": [recs(x) for x in end["captured"]],
           "real_out": recs(end["real_out"]), "real_err": recs(end["real_err"]), "user_log": recs(end["user_log"])}
-    return {"id": rid, "prog": prog_tla, "cfg": cfg_tla, "skips": skips or [], "events": row["events"], "end": e2, "base": base or base_of(row)}
+    return {"id": rid, "prog": prog_tla, "cfg": cfg_tla, "skips": skips or [], "hookcl": bool(hookcl), "events": row["events"], "end": e2, "base": base or base_of(row)}
 
 
 # ----------------------------------------------------------------------------- shared stage with cache
@@ -149,7 +149,7 @@ def plan(tier, seed):
                     sc1 = G.scenario([G.step("pass", cl=[n, layer, raises]), "pass"])
                     sc2 = G.scenario(["pass"])
                     items = [G.rule([sc1, sc2])] if in_rule else [sc1, sc2]
-                    prog = {"features": [G.feature(items), G.feature([G.scenario(["pass"])])], "family": "cleanup"}
+                    prog = {"features": [G.feature(items), G.feature([G.scenario(["pass"])])], "family": "cleanup", "hookcl": n % 2 == 0}
                     res.append((with_o2(prog), [G.cfg(), G.cfg(stop=True)], [[0, 0]]))
         return res
 
@@ -162,6 +162,12 @@ def plan(tier, seed):
         cfgs += [G.cfg(capture=cap, logclear=lc, tamper=True, stop=st) for cap in [(True, True, False), (False, True, True), (True, False, False), (False, False, False)]
                  for lc in (False, True) for st in (False, True)]
         return [(with_o2(p), cfgs, [[0, 0]]) for p in progs]
+
+    def with_hookcl(p, prob):
+        """some programs: the hooks of every level register cleanups of their own"""
+        if rnd.random() < prob:
+            p["hookcl"] = True
+        return p
 
     def with_skips(p, prob):
         """some programs: a before_feature / before_rule / before_scenario hook excludes its element at run time"""
@@ -207,7 +213,7 @@ def plan(tier, seed):
         for p in G.family_scen(2):
             out.append((with_o2(p), [G.cfg(), rcfg()], rfaults(p, 2)))
         for p in G.family_tree(rnd, 260):
-            p = with_skips(with_o2(p), 0.2)
+            p = with_hookcl(with_skips(with_o2(p), 0.2), 0.3)
             out.append((p, [dict(c, retry=False) for c in (rcfg(), rcfg())] if p.get("skips") else [rcfg(), rcfg()], rfaults(p, 2)))
         for p in G.family_big(rnd, 40):
             out.append((with_o2(p), [rcfg()], rfaults(p, 2)))
@@ -234,7 +240,7 @@ def plan(tier, seed):
                     G.cfg(show_skipped=False, capture=(alt % 2 == 0, alt % 3 == 0, alt % 5 == 0))]
             out.append((p, cfgs, [[0, 0]] + spread(nh, 3)))
         for p in G.family_tree(rnd, 1000):
-            p = with_skips(with_o2(p), 0.2)
+            p = with_hookcl(with_skips(with_o2(p), 0.2), 0.3)
             nh = G.count_hooks_upper(G.flatten(p))
             cf = [rcfg(), rcfg()]
             out.append((p, [dict(c, retry=False) for c in cf] if p.get("skips") else cf, [[0, 0]] + spread(nh, 6) + rfaults(p, 2)[1:]))
@@ -249,7 +255,7 @@ def shared(chk, part="core"):
     """Run (or load) the shared stage for this tree / tier / seed.  Returns a dict:
        n_runs, tlc: [{module,cfg,distinct,generated,wall,coverage}], verdicts: {clause: [ {key, ...} ]},
        divergences, samples, design_violations"""
-    key = tree_key({"tier": chk.tier, "seed": chk.seed, "part": part, "v": 13})
+    key = tree_key({"tier": chk.tier, "seed": chk.seed, "part": part, "v": 15})
     os.makedirs(CACHE, exist_ok=True)
     # one entry per (part, tier, repository location): runs against a mutated copy must not evict /repo's entry
     prefix = "%s-%s-%s-" % (part, chk.tier, hashlib.sha256(REPO.encode()).hexdigest()[:8])
@@ -321,7 +327,7 @@ def _compute(chk, part):
             continue
         d, b = preds[k], preds[(k[0], k[1], 1)]
         case = info[k[0]][4]
-        prows.append({"id": len(prows) + 1, "prog": case["prog"], "cfg": case["cfgs"][k[1] - 1], "skips": case["skips"], "events": d["events"],
+        prows.append({"id": len(prows) + 1, "prog": case["prog"], "cfg": case["cfgs"][k[1] - 1], "skips": case["skips"], "hookcl": case["hookcl"], "events": d["events"],
                       "end": {"ran": True, "verdict": d["verdict"], "status": d["status"], "step_status": d["step_status"], "hook_failed": d["hook_failed"]},
                       "base": {"ran": True, "aborted": any(e["k"] == "step" and e["outcome"] == "kbd" for e in b["events"]),
                                "status": b["status"], "step_status": b["step_status"]}, "_key": list(k)})
@@ -356,7 +362,7 @@ def _compute(chk, part):
     for n, row in enumerate(out):
         k = tuple(row["key"])
         case = info[k[0]][4]
-        jrows.append(judge_row(n + 1, case["prog"], case["cfgs"][k[1] - 1], row, base=base_of(bykey[(k[0], k[1], 1)]), skips=case["skips"]))
+        jrows.append(judge_row(n + 1, case["prog"], case["cfgs"][k[1] - 1], row, base=base_of(bykey[(k[0], k[1], 1)]), skips=case["skips"], hookcl=case["hookcl"]))
         if k in preds:
             d = compare(preds[k], row, info[k[0]][1])
             if d:
